@@ -19,12 +19,13 @@ What the theorems speak about are the *stack machines* the driver executes:
 `run key (init root)` (the loop of `PostOrderIter::next`: stack of `{elem, processed, left_idx,
 right_idx, previous}`, the seven child patterns, back-patching through `Previous`, tracker),
 `rtl key root` (the same machine on the child-swapped handle, then `unswap`),
-`prun key (pinit root)` (`PreOrderIter::next`), `isSharedAsRun key root` (`is_shared_as`: zip of
-two runs).  `Same key a c` = "a and c are one sharing class" (the same object, or equal keys);
+`prun key (pinit root)` (`PreOrderIter::next`), `vrun key max_depth (vinit root)`
+(`VerbosePreOrderIter::next`), `isSharedAsRun key root` (`is_shared_as`: zip of two runs).  `Same key a c` = "a and c are one sharing class" (the same object, or equal keys);
 `Rep key outs j c` = "item j is of c's class".
 
 Hypotheses, and why the three policies meet them (`*_hypotheses` below):
-* none for numbering, children-first, true child indices, at-most-once, parent-first;
+* none for termination, absence of assertion failures, numbering, children-first, true child indices,
+  at-most-once, the mirror image, parent-first, the verbose iterator;
 * `CongrOn key root` (nodes of the DAG with one key have children in the same classes) for
   *every class is yielded* — without it a class can be lost: the walk skips a node whose key was
   seen, and nothing forces that node's children to have been walked (example
@@ -179,10 +180,10 @@ theorem rtl_class_at_most_once (root : T) (i j : Nat) (oi oj : Out) (k : K)
   rw [← run_eq_visit] at hinv
   exact hinv.unique key hi hj hki hkj
 
-/-- every class is yielded by the right-to-left iteration too (globally congruent key) -/
-theorem rtl_every_class_yielded (root : T) (hc : Congr key) (d : T) (hd : Desc root d) :
+/-- every class is yielded by the right-to-left iteration too (congruent key) -/
+theorem rtl_every_class_yielded (root : T) (hc : CongrOn key root) (d : T) (hd : Desc root d) :
     ∃ j, Rep key (rtl key root) j d := by
-  obtain ⟨j, hr⟩ := visit_complete (mkey key) (hc.mirror key) root.mirror d.mirror hd.mirror
+  obtain ⟨j, hr⟩ := visit_complete_on (mkey key) root.mirror (hc.mirror key) d.mirror hd.mirror
   rw [← run_eq_visit] at hr
   have := hr.unswap key
   rw [T.mirror_mirror] at this
